@@ -34,6 +34,11 @@
 (*   "OptionOwnsCtx" the WithMassive option VALUE derives the pipeline's   *)
 (*                   cancelable context once; a call that fails cancels it *)
 (*                   for every later call given the same value             *)
+(*   "LockLeftHeld"  a package-level lock taken by Mkdir is not released   *)
+(*                   on the path where the file system refuses a name      *)
+(*   "SharedError"   every format error is one mutable object: the error   *)
+(*                   an earlier call returned changes when a later call    *)
+(*                   fails (res is what the caller holds, not a copy)      *)
 (* (option values and lists belong to the caller, who may hand the same    *)
 (* value to call after call: the harness does - one extension slice and    *)
 (* one WithMassive value per process)                                      *)
@@ -62,6 +67,8 @@ Leaves(c) ==
   \cup (IF "PooledParser" \in Dev /\ c.fam = "md" THEN {<<"parser", IndentOf(c.doc)>>} ELSE {})
   \cup (IF "CallerSlice" \in Dev /\ Has(c, "extsDup") THEN {<<"slice">>} ELSE {})
   \cup (IF "OptionOwnsCtx" \in Dev /\ Has(c, "massive") /\ c.fault \in {"w1", "w2", "rhalf"} THEN {<<"optctx">>} ELSE {})
+  \cup (IF "LockLeftHeld" \in Dev /\ c.op = "mkdir" /\ Has(c, "massive") /\ c.doc = "long" THEN {<<"lock">>} ELSE {})
+  \cup (IF "SharedError" \in Dev /\ c.doc \in {"fmt1", "fmt2"} THEN {<<"errobj", c.doc>>} ELSE {})
 
 \* does something left behind change what this call does?
 Disturbs(rs, c) ==
@@ -70,6 +77,8 @@ Disturbs(rs, c) ==
   \/ \E r \in rs : r[1] = "parser" /\ c.fam = "md" /\ r[2] # IndentOf(c.doc)
   \/ \E r \in rs : r[1] = "slice" /\ Has(c, "extsDup")
   \/ \E r \in rs : r[1] = "optctx" /\ Has(c, "massive")
+  \/ \E r \in rs : r[1] = "lock" /\ c.op = "mkdir" /\ ~Has(c, "dry")
+  \/ \E r \in rs : r[1] = "errobj" /\ c.doc \in {"fmt1", "fmt2"} /\ r[2] # c.doc
 
 Result(c, rs) == IF Disturbs(rs, c) THEN <<"disturbed", c, rs>> ELSE Alone(c)
 
